@@ -17,7 +17,7 @@ import (
 func init() { props["C15"] = runC15 }
 
 var tracedFileSyscalls = []string{"open", "openat", "openat2", "readlink", "readlinkat", "unlink", "unlinkat", "mkdirat", "mknodat", "symlinkat",
-	"fchmodat", "linkat", "renameat", "renameat2", "access", "faccessat", "faccessat2", "stat", "lstat", "statx", "newfstatat",
+	"fchmodat", "fchmodat2", "linkat", "renameat", "renameat2", "access", "faccessat", "faccessat2", "stat", "lstat", "statx", "newfstatat",
 	"execve", "execveat", "chmod", "rename"}
 
 var fileTracingFilter seccomp.Filter
